@@ -171,7 +171,14 @@ def role(phys, root):
 def task(arg):
     opname, k, ename, root, shim, baseline, callinfo = arg
     sh = vp.Shard()
-    ok, detail, trace, snap = execute(root, opname, shim, "inject", k, ERRNOS[ename])
+    try:
+        ok, detail, trace, snap = execute(root, opname, shim, "inject", k, ERRNOS[ename])
+    except vp.ExecutorDied as e:
+        vp.rmtree(root)
+        sh.evaluations += 1
+        sh.violation("process-died:%s" % opname, "%s with %s injected into call #%d: the process died (status %s) instead of the call returning an error" % (opname, ename, k, e.status),
+                     {"op": opname, "k": k, "errno": ename})
+        return sh.dict()
     vp.rmtree(root)
     sh.evaluations += 1
     fired = [t for t in trace if t["tag"] == "INJECTED"]
@@ -310,14 +317,11 @@ def run(tier, seed, work):
                 if tier == "quick" and len(errnos) == 1 and False:
                     continue
                 tasks.append((opname, k, e, os.path.join(work, "t-%d-%d-%s" % (i, k, e)), shim, base, role(t["phys"], os.path.join(root, "w"))))
-    import multiprocessing as mp
-    with mp.get_context("fork").Pool(vp.NCPU) as pool:
-        for d in pool.imap_unordered(task, tasks, chunksize=4):
-            res.merge(d)
+    for d in vp.pimap(task, tasks, chunksize=4):
+        res.merge(d)
     nh = 400 if tier == "quick" else 6000
-    with mp.get_context("fork").Pool(vp.NCPU) as pool:
-        for d in pool.imap_unordered(history_fault_case, [(i, seed, work, shim) for i in range(nh)], chunksize=8):
-            res.merge(d)
+    for d in vp.pimap(history_fault_case, [(i, seed, work, shim) for i in range(nh)], chunksize=8):
+        res.merge(d)
     res.extra["history_fault_cases"] = nh
     res.exhaustive = True
     res.extra["exhaustive_bound"] = "every position k in the sequence of watched libc calls of each of %d operations x errno in %r" % (len(ops), errnos)
